@@ -115,7 +115,7 @@ def monitored_class():
 
 
 def cases(tier, seed):
-    n = 1200 if tier == "quick" else 12000
+    n = 1200 if tier == "quick" else 30000
     out = [{"id": "pts/%d" % i, "seed": [seed, 8, i]} for i in range(n)]
     out += [{"id": "edge/%d" % i, "edge": True, "seed": [seed, 88, i]} for i in range(n // 10)]
     return out
